@@ -244,6 +244,17 @@ def trafficType (index : Nat) : Nat := index % 256
 /-- the 32-byte ABI word of a `uint256` argument (go-ethereum packs `v mod 2^256`) -/
 def abiWord (v : Nat) : Bytes := natBE 32 v
 
+/-! ### commit-reveal glue (`dosnode/dos_chain_handler.go` `handleCR`)
+
+`handleCR` draws a secret, commits `keccak256(math.U256Bytes(sec))` and later reveals `sec`; the contract
+checks the revealed `uint256` against the commitment by hashing its 32-byte ABI word. -/
+
+/-- `math.U256Bytes(v)`: the 32-byte big-endian word of `v mod 2^256` -/
+def u256Bytes (v : Nat) : Bytes := natBE 32 v
+
+/-- the commitment `handleCR` hands to `Commit` for secret `sec` (`hash` = legacy Keccak-256) -/
+def crCommitment (hash : Bytes → Bytes) (sec : Nat) : Bytes := hash (u256Bytes sec)
+
 /-! ### driver -/
 
 def parseOutcome : String → Option Outcome
